@@ -3,8 +3,9 @@ from . import e2esim as S
 
 PROP  = 'C11'
 KNOBS = {'max_tasks': 5, 'min_tasks': 2, 'fail_share': 0.2,
-         'spawn_fail_share': 0.0, 'timeout_share': 0.0, 'sd_share': 0.95,
-         'cancel_prob': 0.0, 'work_exc_prob': 0.0, 'io_fault_prob': 0.15,
+         'spawn_fail_share': 0.0, 'timeout_share': 0.15, 'sd_share': 0.95,
+         'cancel_prob': 0.25, 'long_cancel': True, 'work_exc_prob': 0.0,
+         'io_fault_prob': 0.15,
          'rich_sds': True, 'soe_share': 0.15}
 
 
